@@ -98,6 +98,25 @@ class TplCase(BFCase):
         return f"{pre}template <class T> struct {a} {self.tag} {{ {body} T tpl_t; }};{post}\nstruct Use_{self.tag} {{ {self.tag}<char> x; }};"
 
 
+class BigRunCase(BFCase):
+    """One run of consecutive bit-fields longer than 2^16 bits (2 100 x (29 + 3) bits, `:0` separators on 32-bit boundaries are
+    layout-neutral): only the first and the last few fields are exercised, the rest is filler between them."""
+
+    def __init__(self, tag, attr, pairs=2100):
+        ms = []
+        for k in range(pairs):
+            ms += [("bf", "uint", 29, f"fld{k}"), ("bf", "uint", 3, f"tag{k}"), ("sep", "uint")]
+        ms += [("bf", "uint", 5, "probe_a"), ("bf", "uint", 11, "probe_b"), ("bf", "ullong", 40, "probe_c")]
+        BFCase.__init__(self, tag, "struct", attr, ms)
+        self.cid = f"bf-bigrun[{attr}]({pairs}x(uint:29,uint:3,uint:0),uint:5,uint:11,ullong:40)"
+        self.pairs = pairs
+
+    def bitfields(self):
+        allf = BFCase.bitfields(self)
+        pick = {"fld0", "tag0", f"fld{self.pairs // 2 + 1}", f"tag{self.pairs - 1}", f"fld{self.pairs - 1}", "probe_a", "probe_b", "probe_c"}
+        return [x for x in allf if x[0] in pick]
+
+
 def values(base, width):
     _, signed, bits = BASES[base]
     if base == "bool":
@@ -179,6 +198,8 @@ def family(tier, seed):
                 ms = [("bf", b, w, f"f{k}") for k, (b, w) in enumerate(run)] + [("sep", sb), ("bf", nb, nw, f"f{len(run)}")]
                 add("struct", "plain", ms)
                 add("struct", "plain", ms + [("bf", "uint", 5, f"f{len(run) + 1}"), ("plain", "char", "post")])
+    out.append(BigRunCase(f"K{n[0] + 1}", "plain"))
+    n[0] += 1
     return out
 
 
@@ -274,7 +295,7 @@ def run(ck, only=None):
     # the same records as C++ class templates (structs under plain / packed attributes; a stable third in the quick tier)
     tpl = []
     for c in cases:
-        if c.kind == "struct" and c.attr in ("plain", "packed") and (ck.tier == "thorough" or int(common.sha(c.cid), 16) % 3 == 0):
+        if c.kind == "struct" and c.attr in ("plain", "packed") and not isinstance(c, BigRunCase) and (ck.tier == "thorough" or int(common.sha(c.cid), 16) % 3 == 0):
             tpl.append(TplCase("K" + str(900000 + int(c.tag[1:])), c.attr, c.members))
     if only:
         cases = [c for c in cases + tpl if c.cid == only.get("cid")]
